@@ -243,6 +243,8 @@ pub struct SentC {
     pub may_be_lost: bool,
 }
 
+pub const HALF: u32 = 1 << 31;
+
 pub struct Cl {
     pub app: App,
     pub mismatch: bool,
@@ -276,6 +278,7 @@ pub struct Cl {
     pub sent_per_tick: BTreeMap<u32, usize>,
     pub delivered_per_tick: BTreeMap<u32, usize>,
     pub fired: BTreeSet<u32>,
+    pub completion_checked: BTreeSet<u32>,
     /// tick of the last update message the server sent to this client in this session
     pub last_upd_tick_sent: u32,
     /// tick of the last update message the transport handed to this client in this session
@@ -284,6 +287,19 @@ pub struct Cl {
     pub stamps: BTreeMap<(&'static str, u32), u32>,
     pub pending_disconnect: bool,
     pub first_update_checked: bool,
+    /// F21 bookkeeping: messages with a tick in the upper half of `u32` handed to the client since
+    /// its last frame (mutate / dependent event), and whether such a message was processed before
+    /// any update message of the session (sticky per run).
+    pub in_mut_high: bool,
+    pub in_ev_high: bool,
+    pub in_ev_zero: bool,
+    pub in_mut_zero: bool,
+    /// `ServerMutateTicks::last_tick` before the client's latest frame
+    pub mt_last_before: u32,
+    /// F22: this client was sent the despawn of an owner together with the removal of a relationship to it
+    pub f22: bool,
+    pub f21_mut: bool,
+    pub f21_ev: bool,
     /// authorized at a moment when the server already replicated entities (late joiner)
     pub joined_late: bool,
     /// per mutate tick: update ticks the delivered messages of that tick wait for
@@ -310,6 +326,8 @@ pub struct Sim {
     pub ever_explicit: BTreeSet<(usize, Entity)>,
     /// (client, entity) pairs that were hidden when the entity died; their secrets stay secret
     pub dead_hidden: BTreeSet<(usize, Entity)>,
+    /// F22 bookkeeping: (frame label, entity, former owner) of every removed `OwnedBy`
+    pub detached: Vec<(usize, Entity, Entity)>,
     pub secrets: BTreeMap<Entity, Vec<[u8; 8]>>,
     pub unmarked_once: BTreeSet<Entity>,
     /// (client, session, server entity): mapped already, to be made visible to its owner later
@@ -398,6 +416,13 @@ impl Sim {
             2 => 2_097_100 + rng.below(100) as u32,
             _ => 0,
         };
+        // rarely: a server about to cross, or already beyond, the middle of the tick range (R5b)
+        let bump = match rng.below(24) {
+            0 => HALF - 5 - rng.below(250) as u32,
+            1 if rng.below(2) == 0 => HALF + rng.below(1 << 30) as u32,
+            _ => bump,
+        };
+        let bump = std::env::var("VERIF_BUMP").ok().and_then(|v| v.parse::<u32>().ok()).unwrap_or(bump);
         if bump > 0 {
             server.world_mut().resource_mut::<ServerTick>().increment_by(bump);
         }
@@ -446,11 +471,20 @@ impl Sim {
                     sent_per_tick: default(),
                     delivered_per_tick: default(),
                     fired: default(),
+                    completion_checked: default(),
                     last_upd_tick_sent: 0,
                     last_upd_tick_delivered: 0,
                     stamps: default(),
                     pending_disconnect: false,
                     first_update_checked: false,
+                    in_mut_high: false,
+                    in_ev_high: false,
+                    in_ev_zero: false,
+                    in_mut_zero: false,
+                    mt_last_before: 0,
+                    f22: false,
+                    f21_mut: false,
+                    f21_ev: false,
                     joined_late: false,
                     delivered_reqs: default(),
                     pre_ever: default(),
@@ -472,6 +506,7 @@ impl Sim {
             vis_rec: default(),
             ever_explicit: default(),
             dead_hidden: default(),
+            detached: vec![],
             secrets: default(),
             unmarked_once: default(),
             pending_show: vec![],
@@ -517,11 +552,48 @@ impl Sim {
         if self.after_fault && p.iter().any(|x| matches!(*x, "C01" | "C02" | "C03")) && !p.contains(&"C09") {
             p.push("C09");
         }
+        if let Some(sig) = self.f21_signature(&p, &msg) {
+            let line = format!("{sig}: ({}) {msg}", p.join(","));
+            if !self.known.contains(&line) {
+                self.obs.inc(if sig.starts_with("owned") { "known_f22_hits" } else { "known_f21_hits" });
+                // a session in that regime re-observes the finding every tick: keep a few per run
+                if self.known.iter().filter(|k| k.starts_with(sig)).count() < 4 {
+                    self.known.push(line);
+                }
+            }
+            return;
+        }
         // a persistent mismatch is re-observed after every frame: record it once
         if self.errs.iter().any(|e| e.msg == msg) {
             return;
         }
         self.errs.push(Violation { props: p, msg });
+    }
+
+    /// Known finding F21 (client's initial tick 0 ordered against server ticks >= 2^31): decided from
+    /// the history of the client the violation names, not from the violation itself.
+    fn f21_signature(&self, props: &[&'static str], msg: &str) -> Option<&'static str> {
+        let at = msg.find("client")?;
+        let digits: String = msg[at + 6..].chars().take_while(|c| c.is_ascii_digit()).collect();
+        let ci: usize = digits.parse().ok()?;
+        let c = self.clients.get(ci)?;
+        let has = |xs: &[&str]| props.iter().any(|p| xs.contains(p));
+        if c.f22 && has(&["C01", "C02", "C03", "C04", "C10", "C11", "C12", "C16"]) {
+            return Some("owned-entity-detached-in-owners-despawn-tick");
+        }
+        if c.f21_mut && has(&["C01", "C02", "C10", "C11", "C12"]) {
+            return Some("mutation-processed-before-first-update-at-upper-half-tick");
+        }
+        if c.f21_ev && has(&["C04", "C05"]) {
+            return Some("event-ordered-against-initial-tick-at-upper-half-tick");
+        }
+        if has(&["C12"]) && self.cfg.track {
+            let st = self.server.world().resource::<ServerTick>().get();
+            if st >= HALF && c.mt_last_before == 0 {
+                return Some("mutate-ticks-ignored-at-upper-half-tick");
+            }
+        }
+        None
     }
 
     pub fn note(&mut self, s: String) {
@@ -551,6 +623,7 @@ impl Sim {
         c.sent_per_tick.clear();
         c.delivered_per_tick.clear();
         c.fired.clear();
+        c.completion_checked.clear();
         c.last_upd_tick_sent = 0;
         c.last_upd_tick_delivered = 0;
         c.stamps.clear();
@@ -558,6 +631,10 @@ impl Sim {
         c.hold_upd = false;
         c.pending_disconnect = false;
         c.first_update_checked = false;
+        c.in_mut_high = false;
+        c.in_ev_high = false;
+        c.in_ev_zero = false;
+        c.in_mut_zero = false;
         c.joined_late = false;
         c.delivered_reqs.clear();
         c.pre_ever.clear();
@@ -617,6 +694,15 @@ impl Sim {
     pub fn disconnect(&mut self, i: usize) {
         let Some(ent) = self.clients[i].ent.take() else { return };
         self.server.world_mut().entity_mut(ent).despawn();
+        if self.rng.below(4) == 0 {
+            // a transport that notices the loss and tries to re-establish the link before it gives up:
+            // Connected -> Connecting (one or two frames) -> Disconnected
+            self.clients[i].app.world_mut().resource_mut::<RepliconClient>().set_status(RepliconClientStatus::Connecting);
+            for _ in 0..1 + self.rng.below(2) {
+                update_app(&mut self.clients[i].app);
+            }
+            self.obs.inc("disconnects_through_connecting");
+        }
         self.clients[i]
             .app
             .world_mut()
@@ -805,6 +891,45 @@ impl Sim {
 
     pub fn client_frame(&mut self, i: usize) {
         self.note(format!("client_frame {i}"));
+        {
+            // F21: the client orders its initial update tick 0 against the server's ticks; once those
+            // are in the upper half of `u32`, what arrives before the first update message of the
+            // session is treated as already covered
+            let c = &mut self.clients[i];
+            if c.last_update_tick == 0 && c.last_upd_tick_delivered == 0 {
+                if c.in_mut_high && !c.f21_mut {
+                    c.f21_mut = true;
+                    self.obs.inc("f21_mutate_processed_before_first_update_at_high_tick");
+                }
+                if c.in_ev_high && !c.f21_ev {
+                    c.f21_ev = true;
+                    self.obs.inc("f21_event_processed_before_first_update_at_high_tick");
+                }
+            }
+            // ... and an event stamped 0 (sent before the client's first update message) that is
+            // processed after an update message with such a tick looks like an event from the future
+            // (with tracking enabled the server sends mutate messages, carrying update tick 0, before the
+            // client's first update message; such a message can still be in flight or buffered)
+            let c = &mut self.clients[i];
+            if c.in_mut_zero && (c.last_update_tick >= HALF || c.last_upd_tick_delivered >= HALF) && !c.f21_mut {
+                c.f21_mut = true;
+                self.obs.inc("f21_unstamped_mutate_processed_after_first_update_at_high_tick");
+            }
+            if c.in_ev_zero && (c.last_update_tick >= HALF || c.last_upd_tick_delivered >= HALF) && !c.f21_ev {
+                c.f21_ev = true;
+                self.obs.inc("f21_unstamped_event_processed_after_first_update_at_high_tick");
+            }
+            let c = &mut self.clients[i];
+            c.mt_last_before = c
+                .app
+                .world()
+                .get_resource::<bevy_replicon::client::server_mutate_ticks::ServerMutateTicks>()
+                .map_or(0, |t| t.last_tick().get());
+            c.in_mut_high = false;
+            c.in_ev_high = false;
+            c.in_ev_zero = false;
+            c.in_mut_zero = false;
+        }
         update_app(&mut self.clients[i].app);
         self.obs.inc("client_frames");
         self.collect();
@@ -869,6 +994,12 @@ impl Sim {
                     }
                 }
                 self.clients[ci].delivered_reqs.entry(mm.tick).or_default().push(mm.update_tick);
+                if mm.update_tick >= HALF {
+                    self.clients[ci].in_mut_high = true;
+                }
+                if mm.update_tick == 0 {
+                    self.clients[ci].in_mut_zero = true;
+                }
                 let u = self.clients[ci].last_update_tick;
                 if mm.update_tick > u {
                     self.obs.inc("mutate_delivered_before_its_update");
@@ -878,6 +1009,17 @@ impl Sim {
         if ch == 0 {
             if let Some((_, t, _)) = wire::update_header(&m) {
                 self.clients[ci].last_upd_tick_delivered = t;
+            }
+        }
+        if self.cfg.events && ch >= self.s_base {
+            if let Some(k) = S_KINDS.get(ch - self.s_base) {
+                if !s_kind_independent(k) {
+                    match wire::event_stamp(&m) {
+                        Some((t, _)) if t >= HALF => self.clients[ci].in_ev_high = true,
+                        Some((0, _)) => self.clients[ci].in_ev_zero = true,
+                        _ => {}
+                    }
+                }
             }
         }
         self.obs.inc("s2c_delivered");
@@ -1121,6 +1263,42 @@ impl Sim {
                 self.ever_linked.insert(t);
                 Val::E(t)
             }
+            K_OWN => {
+                // linked relationship (R4): only without visibility settings, between marked-or-not
+                // sources and marked owners, kept apart from the (unreplicated) ChildOf hierarchy, acyclic
+                if self.cfg.vis != Vis::All {
+                    return None;
+                }
+                let w = self.server.world();
+                let in_hierarchy = |x: Entity| w.get_entity(x).is_ok_and(|r| r.contains::<ChildOf>() || r.contains::<Children>());
+                if in_hierarchy(e) || self.clients.iter().any(|c| c.ent.is_some() && !c.authorized && c.map_pending.contains(&e)) {
+                    return None;
+                }
+                let cands: Vec<Entity> = self
+                    .alive_marked()
+                    .into_iter()
+                    .filter(|t| *t != e && !in_hierarchy(*t))
+                    .filter(|t| {
+                        // no cycle: walking up from the owner never reaches `e`
+                        let mut cur = Some(*t);
+                        let mut n = 0;
+                        while let Some(c) = cur {
+                            if c == e || n > 64 {
+                                return false;
+                            }
+                            n += 1;
+                            cur = w.get::<OwnedBy>(c).map(|o| o.0);
+                        }
+                        true
+                    })
+                    .collect();
+                if cands.is_empty() {
+                    return None;
+                }
+                let t = cands[self.rng.below(cands.len())];
+                self.ever_linked.insert(t);
+                Val::E(t)
+            }
             _ => Val::U(v),
         })
     }
@@ -1128,8 +1306,9 @@ impl Sim {
     /// R1: references never dangle - remove links to `target` (and to its descendants, because
     /// despawn is recursive) before the target disappears.
     fn unlink_targets(&mut self, target: Entity) {
-        let kids: Vec<Entity> =
+        let mut kids: Vec<Entity> =
             self.server.world().get::<Children>(target).map(|c| c.iter().collect()).unwrap_or_default();
+        kids.extend(self.server.world().get::<Owns>(target).map(|c| c.iter().collect::<Vec<_>>()).unwrap_or_default());
         for k in kids {
             self.unlink_targets(k);
         }
@@ -1151,12 +1330,48 @@ impl Sim {
         }
     }
 
+    /// Known finding F22: despawn records are applied before removal records. If an entity was
+    /// detached from its owner (linked, replicated relationship) in the tick window in which the
+    /// owner goes away, the client's mirrored relationship still takes it along, and the removal
+    /// record that follows then makes the client reject the rest of the update message.
+    fn note_f22(&mut self, root: Entity) {
+        let last_tick_frame = self.tick_frame.values().copied().max().unwrap_or(0);
+        let mut dying = BTreeSet::new();
+        let mut stack = vec![root];
+        while let Some(x) = stack.pop() {
+            if !dying.insert(x) {
+                continue;
+            }
+            if let Some(c) = self.server.world().get::<Owns>(x) {
+                stack.extend(c.iter());
+            }
+            if let Some(c) = self.server.world().get::<Children>(x) {
+                stack.extend(c.iter());
+            }
+        }
+        let hit = self
+            .detached
+            .iter()
+            .any(|(f, o, owner)| *f >= last_tick_frame && dying.contains(owner) && !dying.contains(o) && self.server.world().get_entity(*o).is_ok());
+        if hit {
+            self.obs.inc("f22_owner_despawned_in_the_tick_of_a_detach");
+            for c in &mut self.clients {
+                if c.ent.is_some() {
+                    c.f22 = true;
+                }
+            }
+        }
+    }
+
     fn forget_dead(&mut self, root: Entity) {
         // despawn is recursive over Children
         let mut stack = vec![root];
         let mut dead = vec![];
         while let Some(e) = stack.pop() {
             dead.push(e);
+            if let Some(c) = self.server.world().get::<Owns>(e) {
+                stack.extend(c.iter());
+            }
             if let Some(c) = self.server.world().get::<Children>(e) {
                 stack.extend(c.iter());
             }
@@ -1256,8 +1471,15 @@ impl Sim {
             // R5: an early-mapped entity stays alive, marked and untouched by other visibility ops until shown
             return;
         }
+        if matches!(k, 2 | 8 | 13) && self.clients.iter().any(|c| c.ent.is_some() && !c.authorized && c.map_pending.contains(&e)) {
+            // R5: a mapping prepared for a connection that is not authorized yet cannot be withdrawn;
+            // its server entity stays alive (also: gets no parent that could take it along) and marked
+            // until the connection is authorized or gone
+            return;
+        }
         match k {
             2 => {
+                self.note_f22(e);
                 self.unlink_targets(e);
                 self.forget_dead(e);
                 self.server.world_mut().entity_mut(e).despawn();
@@ -1269,7 +1491,7 @@ impl Sim {
                 let kk = if k == 15 { [K_ONCE, K_PER][self.rng.below(2)] } else { self.rng.below(NK) };
                 let Some(v) = self.fresh_val(e, kk) else { return };
                 let had = has_kind(&self.server.world().entity(e), kk);
-                if kk == K_ATT && had {
+                if (kk == K_ATT || kk == K_OWN) && had {
                     // O8: re-targeting a replicated relationship travels in an unreliable mutate message; if the
                     // old target disappears first, the client's own relationship hook removes the component
                     // until the mutation arrives. The workload only attaches and detaches (both reliable).
@@ -1290,6 +1512,11 @@ impl Sim {
             }
             4 | 16 => {
                 let kk = if k == 16 { [K_ONCE, K_PER][self.rng.below(2)] } else { self.rng.below(NK) };
+                if kk == K_OWN {
+                    if let Some(o) = self.server.world().get::<OwnedBy>(e) {
+                        self.detached.push((self.frame_no, e, o.0));
+                    }
+                }
                 let mut em = self.server.world_mut().entity_mut(e);
                 remove_kind(&mut em, kk);
                 self.mark_struct(e);
@@ -1322,7 +1549,14 @@ impl Sim {
             }
             8 if self.cfg.vis == Vis::All => {
                 // marker toggle (R2: only where no explicit visibility settings exist)
+                if marked && self.server.world().entity(e).contains::<Owns>() {
+                    // R4: un-marking an owner despawns it on the clients only, and their mirrored
+                    // relationship would take the still replicated owned entities along
+                    return;
+                }
                 if marked {
+                    // (for the clients the end of replication is a despawn of their copy)
+                    self.note_f22(e);
                     self.unlink_targets(e);
                     self.unmarked_once.insert(e);
                     self.server.world_mut().entity_mut(e).remove::<Replicated>();
@@ -1366,8 +1600,12 @@ impl Sim {
                 }
             }
             11 => {
-                let mut kk = if self.rng.below(3) == 0 { K_ATT } else { K_LINK };
-                if kk == K_ATT && has_kind(&self.server.world().entity(e), K_ATT) {
+                let mut kk = match self.rng.below(6) {
+                    0 | 1 => K_ATT,
+                    2 => K_OWN,
+                    _ => K_LINK,
+                };
+                if kk != K_LINK && has_kind(&self.server.world().entity(e), kk) {
                     kk = K_LINK;
                 }
                 if let Some(v) = self.fresh_val(e, kk) {
@@ -1375,7 +1613,10 @@ impl Sim {
                     let mut em = self.server.world_mut().entity_mut(e);
                     insert_kind(&mut em, kk, v);
                     self.mark_struct(e);
-                    self.note(format!("{} {e} -> {s}", if kk == K_ATT { "attach" } else { "link" }));
+                    self.note(format!("{} {e} -> {s}", ["link", "attach", "own"][kk - K_LINK]));
+                    if kk == K_OWN {
+                        self.obs.inc("op_own");
+                    }
                     self.obs.inc("op_link");
                 }
             }
@@ -1386,6 +1627,11 @@ impl Sim {
                 }
                 let p = others[self.rng.below(others.len())];
                 if k == 13 {
+                    // the two linked hierarchies (ChildOf, OwnedBy) stay disjoint
+                    let w = self.server.world();
+                    if [e, p].iter().any(|x| w.entity(*x).contains::<OwnedBy>() || w.entity(*x).contains::<Owns>()) {
+                        return;
+                    }
                     // avoid cycles: only parent to an entity that is not a descendant
                     let mut cur = Some(p);
                     while let Some(c) = cur {
@@ -1436,8 +1682,18 @@ impl Sim {
     pub fn prespawn(&mut self) {
         let ci = self.rng.below(self.clients.len());
         let Some(ce) = self.clients[ci].ent else { return };
-        if !self.clients[ci].authorized {
-            return;
+        let unauthorized = !self.clients[ci].authorized;
+        if unauthorized {
+            // game-side authorization: the game may prepare the mappings of a connection it has not
+            // authorized yet (ClientEntityMap is an ordinary component); they travel with the first
+            // replication after authorization
+            if self.cfg.auth != Auth::Custom || self.clients[ci].mismatch || self.cfg.vis == Vis::Whitelist {
+                return;
+            }
+            if self.server.world().get::<ClientEntityMap>(ce).is_none() {
+                self.server.world_mut().entity_mut(ce).insert(ClientEntityMap::default());
+            }
+            self.obs.inc("op_prespawn_before_authorization");
         }
         let v = self.rng.below(100000) as u32;
         let pre = self.clients[ci].app.world_mut().spawn_empty().id();
@@ -1448,7 +1704,7 @@ impl Sim {
             .into_iter()
             .filter(|e| !self.server.world().entity(*e).contains::<Replicated>() && self.never_marked.contains(e))
             .collect();
-        let adopt = self.cfg.vis == Vis::All && !unmarked.is_empty() && self.rng.below(3) == 0;
+        let adopt = self.cfg.vis == Vis::All && !unauthorized && !unmarked.is_empty() && self.rng.below(3) == 0;
         let se = if adopt {
             let se = unmarked[self.rng.below(unmarked.len())];
             self.server.world_mut().entity_mut(se).insert(Replicated);
@@ -1476,7 +1732,7 @@ impl Sim {
         self.server.world_mut().get_mut::<ClientEntityMap>(ce).unwrap().insert(se, pre);
         // C16: the mapping is registered "no later than the tick in which the entity first becomes
         // visible": either in that tick (R5) or in an earlier one (the entity is shown later)
-        let early = self.cfg.vis != Vis::All && self.rng.below(2) == 0;
+        let early = self.cfg.vis != Vis::All && !unauthorized && self.rng.below(2) == 0;
         if early {
             if self.cfg.vis == Vis::Blacklist {
                 self.server.world_mut().get_mut::<ClientVisibility>(ce).unwrap().set_visibility(se, false);
